@@ -1116,6 +1116,37 @@ struct MetaDoc {
     metadata: BM25Metadata,
 }
 
+#[derive(serde::Deserialize)]
+struct BucketDoc {
+    #[serde(rename = "p")]
+    postings: HashMap<String, (u32, Vec<(u64, usize)>)>,
+}
+
+/// Documented layout rule ("each token is assigned to exactly one bucket, a self-contained
+/// blob"), checked on what a *completed* flush left behind: every object the committed manifest
+/// references exists, and no token is stored in two of them. (A second copy is invisible to a
+/// load as long as the loader's later-bucket-wins rule happens to pick the right one, which is
+/// why this is looked at directly.)
+fn durable_layout(disk: &Disk) -> Result<(), String> {
+    let Some(meta) = &disk.meta else {
+        return Ok(());
+    };
+    let doc: MetaDoc = cbor2::from_reader(&meta[..]).map_err(|e| format!("metadata: {e:?}"))?;
+    let mut owner: HashMap<String, u32> = HashMap::new();
+    for (id, generation) in &doc.metadata.buckets {
+        let Some(data) = disk.objects.get(&(*id, *generation)) else {
+            return Err(format!("manifest references missing object {id}@{generation}"));
+        };
+        let b: BucketDoc = cbor2::from_reader(&data[..]).map_err(|e| format!("bucket {id}@{generation}: {e:?}"))?;
+        for token in b.postings.keys() {
+            if let Some(prev) = owner.insert(token.clone(), *id) {
+                return Err(format!("token {token:?} is stored in bucket {prev} and in bucket {id}"));
+            }
+        }
+    }
+    Ok(())
+}
+
 /// Converts a manifest layout into the pre-manifest one (generation 0 objects, empty manifest).
 fn to_legacy(disk: &Disk) -> Option<Disk> {
     let meta = disk.meta.as_ref()?;
@@ -1300,6 +1331,11 @@ fn seq_case(
                 }
                 if commit_pos.is_some() {
                     committed = after.clone();
+                    st.count("oracle_durable_layout");
+                    if let Err(e) = durable_layout(&disk) {
+                        st.violation("C11/seq/durable_layout", json!({"problem": e, "context": ctx()}));
+                        return tainted;
+                    }
                 } else {
                     // "nothing to save" is only right when the durable state already is the
                     // current one
@@ -1833,6 +1869,11 @@ fn judge_concurrent(out: &Outcome, plan: &Plan, mode: &str, rng: &mut Rng, st: &
     for w in &f.writes {
         disk.apply(w);
     }
+    st.count("oracle_durable_layout");
+    if let Err(e) = durable_layout(&disk) {
+        st.violation("C11/concurrent/durable_layout", json!({"problem": e, "context": ctx()}));
+        return;
+    }
     if check_loaded(&disk, &model, &dp, "concurrent/reload", rng, st, &ctx).is_none() && !model.docs.is_empty() {
         return;
     }
@@ -1862,6 +1903,10 @@ fn judge_concurrent(out: &Outcome, plan: &Plan, mode: &str, rng: &mut Rng, st: &
     }
     for w in &f.writes {
         disk.apply(w);
+    }
+    if let Err(e) = durable_layout(&disk) {
+        st.violation("C11/concurrent/durable_layout", json!({"problem": e, "after": "follow-up flush", "context": ctx()}));
+        return;
     }
     let fctx = || {
         let mut c = ctx();
